@@ -182,13 +182,7 @@ func (rd *reader) close1002(rule string) {
 				ok, why = false, "close frame sent on a protocol error does not carry status 1002"
 			}
 			// length guard: either truncated or known <= 125
-			if !sliced && !hasLit(p, ev.NLits, false, func(t *core.Term) bool {
-				if t.Kind != core.KLt {
-					return false
-				}
-				v, isC := t.Args[0].Int64()
-				return isC && v == maxCtl && t.Args[1].Kind == core.KLen
-			}) {
+			if !sliced && !knowsLt(p, ev.NLits, maxCtl+1, func(y *core.Term) bool { return y.Kind == core.KLen }) {
 				ok, why = false, "close payload may exceed 125 bytes (WriteControl would refuse it and nothing would be sent)"
 			}
 		}
